@@ -198,6 +198,8 @@ def build_model(case: dict, feed_seed: int = 0):
     conds = []
     trips = []
     opsets = [h.make_opsetid("", s)]
+    # graph names are not identifiers in ONNX: in half of the models every body graph has the same name (as exporters emit)
+    generic = bool(rng.integers(0, 2))
     for i, it in enumerate(case["items"], start=1):
         b = build_item(i, it["kind"], it["par"], s, rng)
         place = it["place"]
@@ -231,8 +233,8 @@ def build_model(case: dict, feed_seed: int = 0):
             ovi = b["outs"][0]
             tvi, evi = copy.deepcopy(ovi), copy.deepcopy(ovi)
             tvi.name, evi.name = y + "_t", y + "_e"
-            tg = h.make_graph(then_nodes, f"then{i}", [], [tvi])
-            eg = h.make_graph(else_nodes, f"else{i}", [], [evi])
+            tg = h.make_graph(then_nodes, "branch" if generic else f"then{i}", [], [tvi])
+            eg = h.make_graph(else_nodes, "branch" if generic else f"else{i}", [], [evi])
             nodes.append(h.make_node("If", [c], [y], then_branch=tg, else_branch=eg, name=f"if{i}"))
         elif place == "loopbody":
             # Loop(m, k) with a body whose scan output is the item's output (item reads outer-scope values)
@@ -249,7 +251,7 @@ def build_model(case: dict, feed_seed: int = 0):
             ovi = b["outs"][0]
             bvi = copy.deepcopy(ovi)
             bvi.name = y + "_l"
-            bg = h.make_graph(body_nodes, f"body{i}", [_vi(f"it{i}", T.INT64, []), _vi(f"cin{i}", T.BOOL, [])],
+            bg = h.make_graph(body_nodes, "branch" if generic else f"body{i}", [_vi(f"it{i}", T.INT64, []), _vi(f"cin{i}", T.BOOL, [])],
                               [_vi(f"cout{i}", T.BOOL, []), bvi])
             nodes.append(h.make_node("Loop", [mname, kname], [y], body=bg, name=f"loop{i}"))
             dims = [d.dim_value if d.HasField("dim_value") else (d.dim_param or None) for d in ovi.type.tensor_type.shape.dim]
